@@ -41,6 +41,13 @@ def make(rng, kind):
         cfg["simulation"]["markets"].append("IDX")
         allm.append("IDX")
         p0s.append(idx_p0)
+        if rng.random() < 0.3:
+            # an index of an index: the inner index counts with its own TRADED price and its declared shares
+            cfg["IDX"]["outstandingShares"] = rng.choice([64, 192])
+            cfg["IDX2"] = {"class": "ProbeIndexMarket", "tickSize": tick, "marketPrice": 176.0, "markets": [rng.choice(names), "IDX"]}
+            cfg["simulation"]["markets"].append("IDX2")
+            allm.append("IDX2")
+            p0s.append(176.0)
     wide = kind in ("plimit", "halt", "haltx", "haltm", "mixed")
     spread = rng.choice([40, 80, 120]) if wide else rng.choice([2, 4, 8])
     script = {"pEmpty": rng.choice([0.0, 0.2]), "pCancel": 0.1, "pMarket": rng.choice([0.0, 0.15]), "maxBatch": rng.choice([1, 2]),
@@ -117,9 +124,27 @@ def make(rng, kind):
                 tg = rng.sample(names, rng.randint(1, len(names)))
                 cfg[name] = {"class": "TradingHaltRule", "targetMarkets": tg, "triggerChangeRate": rng.choice([0.125, 0.0625, 0.25]),
                              "haltingTimeLength": rng.choice([1, 2, 3] if kind != "haltx" else [3, 4, 6]), "enabled": enabled or kind == "haltx"}
+            if name in cfg and kd in ("fshock", "mistake") and rng.random() < 0.3:
+                # the event is declared through a template it extends: its own keys win, falsy ones ("enabled": false,
+                # "triggerTime": 0) included
+                full = cfg[name]
+                tmpl = dict(full, enabled=True, triggerTime=max(1, steps - 1))
+                cfg["T" + name] = tmpl
+                cfg[name] = {"extends": "T" + name, "enabled": full["enabled"], "triggerTime": full["triggerTime"]}
+            if name not in cfg:
+                continue
             sess.setdefault("events", []).append(name)
             n_ev += 1
     return cfg
+
+
+def resolved(cfg, name):
+    """an event entry with its template (one `extends` level, own keys first) - computed here, not by the code under test"""
+    e = dict(cfg[name])
+    while "extends" in e:
+        parent = dict(cfg[e.pop("extends")])
+        e = dict(parent, **e)
+    return e
 
 
 def header_from_cfg(cfg):
@@ -133,10 +158,10 @@ def header_from_cfg(cfg):
     fs, ms, pl, hl = [], [], [], []
     for si, s in enumerate(cfg["simulation"]["sessions"]):
         for en in s.get("events", []):
-            e = cfg[en]
+            e = resolved(cfg, en)
             if not e.get("enabled", True):
                 continue
-            c = e["class"]
+            c = e.get("class")
             if c == "FundamentalPriceShock":
                 fs.append([mid[e["target"]], starts[si] + e["triggerTime"], e.get("shockTimeLength", 1)] + frac(e["priceChangeRate"]))
             elif c == "OrderMistakeShock":
